@@ -84,8 +84,21 @@ def gen_step_case(rng, big=False):
             ev.append({"ev": "tick", "whichs": [rng.randrange(4) for _ in range(rng.choice([0, 0, 0, 1, 1, 2]))]})
         else:
             ev.append({"ev": "quit"})
+    if kind in ("honest", "fork-linked", "splice") and rng.random() < 0.5:
+        ev = [e for e in ev if e["ev"] != "quit"] + fair_tail(n, hreq)
+        case["_tail"] = True
     case["events"] = ev
     return case
+
+
+def fair_tail(n, hreq):
+    """Fair completion: every outstanding request is answered honestly, every submission acknowledged, hash sets keep
+    coming, ticks fire (no further timeouts).  A session must have stopped (success or error) by the end of it."""
+    tail = []
+    for _ in range(3 * n + 12):
+        tail += [{"ev": "answer", "which": 0, "fault": "ok"}, {"ev": "ack", "fault": "ok"}, {"ev": "hashset", "n": hreq},
+                 {"ev": "tick", "whichs": []}]
+    return tail
 
 
 def corpus_cases(ctx, sub):
@@ -187,6 +200,11 @@ def step_predicate(c, obs):
             stopped = True
     if oks > 1:
         bad.append(("more-than-one-success-stop", len(obs), oks))
+    if c.get("_tail") and not stopped and oks == 0:
+        last = obs[-1]["state"]
+        bad.append(("no-stop-although-every-request-was-answered", len(obs) - 1,
+                    {"running": last["running"], "pending": last["pending"], "retry": last["retry"], "free": last["free"],
+                     "connq": last["connq"], "cur": last["cur"], "prev": last["prev"]}))
     return bad
 
 
